@@ -228,10 +228,16 @@ end product
 section sort
 variable {K : Type} [AddCommMonoid K]
 
-/-- **`dist_sort_rows_eq`**: after `mpi::sort_rows` every row of the local and of the remote part is sorted by column
-and the gathered matrix denotes the same matrix as before.  (`distSortRows (split A) = split (sortRows A)` as lists
-— stability of the insertion sort under the local/remote filtering — is not proved; see tools/checks/C11.json.) -/
-theorem dist_sort_rows_eq (Ds : List (DistMat K)) (rp cp : List Nat) (h : DistWF Ds rp cp) :
+/-- **`dist_sort_rows_eq`**: `mpi::sort_rows` of the distributed matrix is, block by block and entry by entry (stored
+order included), the distribution of the serially sorted matrix: the stable insertion sort commutes with the
+local/remote filtering and with the shift to local column numbers (holds for every carrier). -/
+theorem dist_sort_rows_eq {K : Type} (A : CRS K) (rp cp : List Nat) :
+    distSortRows (split A rp cp) = split (sortRows A) rp cp :=
+  dist_sort_split A rp cp
+
+/-- for ANY well-formed distributed matrix (not only a freshly split one): afterwards every row of the local and of
+the remote part is sorted by column and the gathered matrix denotes the same matrix as before. -/
+theorem dist_sort_rows_sorted (Ds : List (DistMat K)) (rp cp : List Nat) (h : DistWF Ds rp cp) :
     (∀ r i, r < rp.length →
       (((distSortRows Ds).getD r default).loc.row i).Pairwise (fun a b => a.1 ≤ b.1) ∧
       (((distSortRows Ds).getD r default).rem.row i).Pairwise (fun a b => a.1 ≤ b.1)) ∧
